@@ -59,7 +59,7 @@ CHECKS = {
          "DESIGN.md section 5 C05"),
  "C06": ("model_checking",
          "layout model of the four signed digests bound to the real sign/verify on every enumerated row; exhaustive alias search over the bounded domain replayed on the real verify; exhaustive enumeration of signing requests on a real instance",
-         "Part A: for every row of a bounded domain of the four signed kinds (variable fields = all strings up to length 2 (3-4 thorough) over {a \" { }}, optional fields present/absent, two values per fixed field) the model digest is signed and the real verify() must accept it iff the model says so, the real sign() must give the same signature; then every row of any kind, optional-field pattern and field split whose signed bytes equal this row's is constructed and replayed on the real verify() (sign r, copy the signature to r' != r), and real signatures are bucketed. Part B: ProveIdentity(challenge) is sent unauthenticated through the real process_inbound with challenge = digest of five forged row kinds naming the victim, lengths 0/1/31/33/64, announce-header and invitation hashes; each returned signature is attached to the forged row, verified with the real verify() and ingested by an honest member through the real entry points.",
+         "Part A: for every row of a bounded domain of the four signed kinds (variable fields = all strings up to length 2 (3-4 thorough) over {a \" { }}, optional fields present/absent, two values per fixed field) the model digest is signed and the real verify() must accept it iff the model says so, the real sign() must give the same signature; then every row of any kind, optional-field pattern and field split whose signed bytes equal this row's is constructed and replayed on the real verify() (sign r, copy the signature to r' != r), and real signatures are bucketed. Part B: ProveIdentity(challenge) is sent unauthenticated through the real process_inbound with challenge = digest of five forged row kinds naming the victim, lengths 0/1/31/33/64, announce-header and invitation hashes; each returned signature is attached to the forged row, verified with the real verify() and ingested by an honest member through the real entry points. Part C: every row and reference contained in a room definition with all lists populated (11 kinds of position) x 4 tampers (signature bit, content, key, date) must be refused by SignatureVerificationService::room_check and by the verification service of a receiving instance.",
          "blake3 collision resistance and ed25519 unforgeability/determinism are trusted. The alias search is complete for every signed row of the domain (the bound applies to the signed row, not to the alias). QUIC transport not run.",
          "DESIGN.md section 5 C06"),
  "C14": ("model_checking",
@@ -69,7 +69,7 @@ CHECKS = {
          "DESIGN.md section 5 C14"),
  "C16": ("model_checking",
          "exhaustive schedule enumeration (all linear extensions of read / validate / batch-commit x all batch partitions) on the real phase functions, serial-outcome oracle, every schedule class forced on the real service with reader/writer gates",
-         "For every ordered pair (quick) and every sequence of 2-3 mutations (thorough) of 7 kinds on one row (two fields, same field twice, add / replace reference, room move) every interleaving the pipeline allows of snapshot read, sign/validate and batch commit, for every grouping into write batches, is executed on MutationQuery::execute, validate_mutation and process_batch_write; the final row, references and signatures must equal the serial result of some order of the acknowledged mutations. Every class (batches, commits before each read, read order) is then forced on a real GraphDatabaseService with two reader threads through both entry points and must end identically; findings are reported only for classes confirmed there.",
+         "For every ordered pair (quick) and every sequence of 2-3 mutations (thorough) of 8 kinds on one row (two fields, same field twice, add / replace reference, room move, clearing an already empty reference list = a mutation that assigns nothing) every interleaving the pipeline allows of snapshot read, sign/validate and batch commit, for every grouping into write batches, is executed on MutationQuery::execute, validate_mutation and process_batch_write; the final row, references and signatures must equal the serial result of some order of the acknowledged mutations. Every class (batches, commits before each read, read order) is then forced on a real GraphDatabaseService with two reader threads through both entry points and must end identically; findings are reported only for classes confirmed there.",
          "Reads are atomic steps; at most one reader is parked at a time (classes needing two are required to equal a forced twin); the differential oracle shares the serial code path. Bounds: n=2 (quick), n<=3 with repetition (thorough).",
          "DESIGN.md section 5 C16"),
  "C17": ("model_checking",
@@ -95,7 +95,7 @@ CHECKS = {
          "DESIGN.md section 5 C09"),
  "C15": ("model_checking",
          "explicit-state search over data-model version sequences on the real DataModel, pipeline and service (run-time and start-up paths), differential oracle, each transition applied repeatedly on fresh hash maps and in fresh processes",
-         "For every sequence of up to 2 (3 thorough) versions built from 85 edit operators at every applicable position of 3 base models (valid: add namespace/entity/field(s), defaults, nullability, deprecation, indexes, full text; invalid: remove/reorder/retype/rename, missing default, reserved names; mixed valid+invalid), with rows of every entity written under every version: an accepted version keeps every pre-existing value readable under the same name, storage identifiers stable, pairwise distinct and identical over 24 applications on freshly deserialised models and 2 fresh worker processes; a refused version leaves the in-memory model, _configuration, indexes, rows and query answers unchanged; re-applying the current text and restarting on the same folder change nothing. Depth-1 and a stratified depth-2 subset also run on the real service through update_data_model and restart.",
+         "For every sequence of up to 2 (3 thorough) versions built from 85 edit operators at every applicable position of 3 base models (valid: add namespace/entity/field(s), defaults, nullability, deprecation, indexes, full text; invalid: remove/reorder/retype/rename, missing default, reserved names; mixed valid+invalid), with rows of every entity written under every version: an accepted version keeps every pre-existing value readable under the same name, storage identifiers stable, pairwise distinct and identical over 24 applications on freshly deserialised models and 2 fresh worker processes; a refused version leaves the in-memory model, _configuration, indexes, rows and query answers unchanged; re-applying the current text and restarting on the same folder change nothing. Depth-1 and a stratified depth-2 subset also run on the real service through update_data_model and restart; before every accepted run-time transition the same version is applied with an injected store failure at each of three fault points of the batch that persists it, and nothing may change.",
          "Hash-map iteration orders are sampled by repetition (24 + 2x12 applications), not enumerated. Rows live outside rooms; no synchronisation between peers on different versions.",
          "DESIGN.md section 5 C15"),
 
